@@ -528,7 +528,15 @@ func (w *World) DoCase(proc, disp, method, host, uri string, hdr http.Header, cs
 }
 
 // DoBody like DoCase, with a request body
+// InFlight / Completed count the requests of DoBody (progress watchdog of the case runners)
+var InFlight, Completed int64
+
 func (w *World) DoBody(proc, disp, method, host, uri string, hdr http.Header, cs interface{}, body string) *Result {
+	atomic.AddInt64(&InFlight, 1)
+	defer func() {
+		atomic.AddInt64(&InFlight, -1)
+		atomic.AddInt64(&Completed, 1)
+	}()
 	gid := sched.Gid()
 	w.mu.Lock()
 	w.nextRid++
